@@ -155,7 +155,80 @@ func loadProg(repo string, thorough bool, overlay map[string][]byte) (*Prog, err
 			}
 		}
 	}
+	bindSliceHelpers(P)
 	return P, nil
+}
+
+// paramBind: the parameters of a module function that returns one slice and is called from exactly one site (a
+// list-building helper split off its only user) stand for the arguments of that site: the slice walkers look through
+// the call into the helper's returns, and access paths of its parameters are those of the caller's values.
+var paramBind = map[*ssa.Parameter]ssa.Value{}
+
+func bindSliceHelpers(P *Prog) {
+	paramBind = map[*ssa.Parameter]ssa.Value{}
+	for callee, sites := range P.callers {
+		if len(sites) != 1 || callee.Blocks == nil || !strings.HasPrefix(fnPkgPath(callee), modPath) {
+			continue
+		}
+		res := callee.Signature.Results()
+		if res.Len() != 1 {
+			continue
+		}
+		if _, isSl := res.At(0).Type().Underlying().(*types.Slice); !isSl {
+			continue
+		}
+		if sites[0].Caller == callee {
+			continue
+		}
+		args := sites[0].Instr.Common().Args
+		if len(args) != len(callee.Params) {
+			continue
+		}
+		for i, p := range callee.Params {
+			paramBind[p] = args[i]
+		}
+	}
+}
+
+// sliceHelperReturns: the values a bound list-building helper may return for this call, nil when the call is not one.
+func sliceHelperReturns(c *ssa.Call) []ssa.Value {
+	callee := c.Call.StaticCallee()
+	if callee == nil || callee.Blocks == nil || len(callee.Params) == 0 && callee.Signature.Results().Len() != 1 {
+		return nil
+	}
+	callee = origin(callee)
+	if callee.Signature.Results().Len() != 1 {
+		return nil
+	}
+	if _, isSl := callee.Signature.Results().At(0).Type().Underlying().(*types.Slice); !isSl {
+		return nil
+	}
+	for _, p := range callee.Params {
+		if paramBind[p] != c.Call.Args[indexOfParam(callee, p)] {
+			return nil
+		}
+	}
+	if !strings.HasPrefix(fnPkgPath(callee), modPath) {
+		return nil
+	}
+	var out []ssa.Value
+	for _, b := range callee.Blocks {
+		for _, ins := range b.Instrs {
+			if r, ok := ins.(*ssa.Return); ok && len(r.Results) == 1 {
+				out = append(out, retVal(r, 0))
+			}
+		}
+	}
+	return out
+}
+
+func indexOfParam(fn *ssa.Function, p *ssa.Parameter) int {
+	for i, q := range fn.Params {
+		if q == p {
+			return i
+		}
+	}
+	return 0
 }
 
 func origin(fn *ssa.Function) *ssa.Function {
